@@ -100,7 +100,11 @@ def _tab_config(ctx, idx):
             if r["phi"]:
                 phi_ok = True
                 break
-            clause = r["clause"]
+            # report the clause of the best-explaining noise candidate (the one that passes most clauses)
+            order = ["reward_is_transition_reward", "terminal_flag", "truncate_flag",
+                     "done_returns_fresh_initial", "continue_returns_successor", "observation_of_returned_state"]
+            if clause is None or order.index(r["clause"]) > order.index(clause):
+                clause = r["clause"]
         if not phi_ok:
             ctx.phi_fail(clause, case)
         if not match:
